@@ -108,8 +108,10 @@ def gen_job(seed, profile="general"):
     want_mixed = r.random() < 0.2 and not history
     want_nearly = r.random() < 0.2 and not history and not want_mixed
     allow = ("linear", "linear", "quadratic", "full", "simplex", "simplex2")
-    if want_mixed or want_nearly:
-        allow = ("linear",)
+    if want_mixed:
+        allow = ("linear", "linear", "quadratic", "full", "simplex2")
+    if want_nearly:
+        allow = ("linear", "linear", "quadratic")
     mesh = gen_mesh(r, dim=dim, allow=allow, max_cells=8 if dim == 3 else 9)
     doc["mesh"] = mesh
     if dim == 3:
